@@ -51,3 +51,9 @@ ENTRIES += [
       "        if self._params.appending:\n            if not os.path.exists(self._cdx_filename):\n                self._write_cdx_header()\n        else:\n            wpull.util.truncate_file(self._cdx_filename)\n            self._write_cdx_header()\n"),
     N('status-line-split', "status_line, dummy, field_str = match.group(1).partition(b'\\n')", "status_line, field_str = match.group(1).split(b'\\n', 1)", F),
 ]
+
+ENTRIES += [
+    B('regress-mimetype-alnum-only', "            r\"([!#$%&'*+.^_`|~a-zA-Z0-9-]+/[!#$%&'*+.^_`|~a-zA-Z0-9-]+)\", value)", "            r'([a-zA-Z0-9-]+/[a-zA-Z0-9-]+)', value)", 'C07-D7'),
+    B('mimetype-subtype-without-plus', "            r\"([!#$%&'*+.^_`|~a-zA-Z0-9-]+/[!#$%&'*+.^_`|~a-zA-Z0-9-]+)\", value)", "            r\"([!#$%&'*+.^_`|~a-zA-Z0-9-]+/[!#$%&'*.^_`|~a-zA-Z0-9-]+)\", value)", 'C07-D7'),
+    N('mimetype-word-class', "            r\"([!#$%&'*+.^_`|~a-zA-Z0-9-]+/[!#$%&'*+.^_`|~a-zA-Z0-9-]+)\", value)", "            r\"([!#$%&'*+.^`|~\\w-]+/[!#$%&'*+.^`|~\\w-]+)\", value)"),
+]
